@@ -187,6 +187,19 @@ def run(idx, rep, tier):
             ok = any(isinstance(st, ast.Assert) and nospace(st.test) in (f"{kp}==1and{wp}=='LM'", f"{wp}=='LM'and{kp}==1") for st in fi.node.body)
             rep.decide(ok, "power-iteration", construct, "refuses anything but k = 1, which = 'LM'" if ok else "does not refuse other (k, which) requests", detail="" if ok else "contract", locs=[rule.loc])
             continue
+        # ---- TERM: the matrix handed to the dense backend decomposition is A itself (eigh: under H(A) = A, its contract)
+        from sa.term import TermEval, equal, norm as tnorm, opaque_text, show as tshow, sym
+        a = rule.params[0][0]
+        n_dec = 0
+        for c in df.calls(fi.node):
+            backend = df.is_xnp_call(c)
+            if backend in ("eigh", "eig") and c.args:
+                n_dec += 1
+                hyp = frozenset({("herm", sym(a))}) if backend == "eigh" else frozenset()
+                t = TermEval(idx).eval_in(fi, c.args[0])
+                okd = equal(t, sym(a), hyp)
+                rep.decide(okd, "decomposition-operand", f"{construct}:{backend}#{n_dec}", f"xnp.{backend} is applied to {tshow(tnorm(t, hyp))}; required {a}" + (" (under H(A) = A)" if hyp else "") +
+                           (f" [outside the grammar: {opaque_text(tnorm(t))}]" if okd is None else ""), detail="" if okd else "operand", locs=[idx.loc(fi.module, c)])
         rets = [r for r in df.returns(fi.node) if r.value is not None and isinstance(r.value, ast.Tuple) and len(r.value.elts) == 2]
         if not rets:
             rep.undecided("spectrum-order", construct, "rule does not return a (values, vectors) pair")
@@ -273,6 +286,7 @@ def run(idx, rep, tier):
         rep.decide(ok, "eig-wrapper", fname, f"calls eig(A, k={kw.get('k')}, which={kw.get('which')}, alg={kw.get('alg')})" + ("" if ok else f"; required k=1, which='{which}', the caller's alg"),
                    detail="" if ok else "args", locs=[idx.loc(f.module, f.node)])
     check_auto(idx, res, rep, "eig", 3)
+    rep.floor("decomposition-operand", 2)
     rep.floor("spectrum-order", 7)
     rep.floor("slice-pairing", 8)
     rep.floor("paired-permutation", 4)
